@@ -1,8 +1,11 @@
 #!/bin/bash
 # seeded_all.sh : run every kept seeded change against the check of the property it breaks
 # (the property is the prefix of the directory name); one line per change.
+# seeded_all.sh C02 C07 ... : only the changes kept for those properties.
 cd "$(dirname "$(readlink -f "$0")")/.." || exit 2
-for d in seeded/C*; do
+dirs=""
+if [ $# -gt 0 ]; then for q in "$@"; do dirs="$dirs $(ls -d seeded/$q-*)"; done; else dirs=$(ls -d seeded/C*); fi
+for d in $dirs; do
   p=$(python3 -c "import json,sys; print(json.load(open(sys.argv[1]))['breaks_property'])" $d/meta.json)
   r=$(tools/seeded_run.sh $d $p 2>&1)
   rc=$(echo "$r" | grep -o "^rc=[0-9]*" | head -1)
